@@ -159,8 +159,18 @@ class Pair:
         self.tick_dtype = rng.choice(["float", "int"])
         self.raw_a = W.uni_raw(rng, self.index, self.ticks, self.open_tick, liq, vols, self.tick_dtype)
         self.raw_m = MR.mirror_raw(self.raw_a)
-        self.pool_a = UniV3Pool(self.Q, self.B, self.fee, self.Q)
-        self.pool_m = UniV3Pool(self.B, self.Q, self.fee, self.Q)
+        # the quote token is named the way a user would: by the pool's own token object, or by an equal token (same symbol and
+        # decimals) written out again, while the pool's tokens carry their contract addresses
+        quote_a = quote_m = self.Q
+        if rng.random() < 0.3:
+            from demeter import TokenInfo as _TI
+
+            self.Q = _TI(self.Q.name, self.Q.decimal, "0x" + "1" * 40)
+            self.B = _TI(self.B.name, self.B.decimal, "0x" + "2" * 40)
+            quote_a = _TI(self.Q.name, self.Q.decimal)
+            quote_m = _TI(self.Q.name, self.Q.decimal)
+        self.pool_a = UniV3Pool(self.Q, self.B, self.fee, quote_a)
+        self.pool_m = UniV3Pool(self.B, self.Q, self.fee, quote_m)
         # tick that defines the price seen at bar i (previous close), A's frame
         self.price_tick = [self.open_tick] + self.ticks[:-1]
         # wallet: at least 1e14 atomic units of each token held, so that liquidity figures are >> 1e12
